@@ -9,8 +9,6 @@ RULE = ("choice lists (1-5 entries incl. numeric-looking, duplicated, spaced and
         "defaults x attempt limits {unlimited,1,2,3} x all answer scripts up to 3 lines (quick) / 4 (thorough) over an adversarial "
         "answer alphabet, each ending in end of input; confirmation over patterns x answers x defaults; interactive on/off; "
         "non-trivial = a script with >= 1 invalid entry or a multi-select answer; distinct by case")
-THEOREMS = ["answer_is_member", "index_and_value_interchangeable", "attempts_exact", "gives_up_at_end_of_input", "non_interactive_default",
-            "confirmation_table"]
 TRUSTED = ["the terminal auto-completion path (stty available) is outside the model: Question._has_stty_available is forced to False "
            "in the harness (it is False anyway without a terminal; forcing it avoids spawning stty for every prompt)"]
 ASSUMPTIONS = ["defaults are valid indexes; confirmation patterns are case-insensitive prefixes"]
